@@ -97,8 +97,11 @@ def run_property(prop, tier, seed):
 
     # ---- direction B: record traces from the implementation, let TLC judge them
     jobs = []
+    scale = int(os.environ.get("VERIF_THOROUGH_SCALE", "3")) if tier == "thorough" else 1
     for fam in rc.get("families", {}).get(tier, []):
         name, n, shards = fam[0], fam[1], fam[2]
+        if name not in ("abi", "sfaultall", "prefixall"):
+            shards = min(shards * scale, 42)          # thorough: more independent shards (each with its own seed)
         for s in range(shards):
             jobs.append((name, n, seed * 1000 + s))
 
